@@ -184,7 +184,7 @@ class GaussianMLPEnsemble(nnx.Module):
         state_i = jax.tree.map(lambda x: x[i], state)
         base_model = nnx.merge(graphdef, state_i)
         mean_i, log_var_i = base_model(x)
-        log_var_i = self._safe_log_var(
+        log_var_i = self._safe_log_var_i(
             log_var_i, self.min_log_var, self.max_log_var
         )
         return mean_i, jnp.exp(log_var_i)
